@@ -77,9 +77,9 @@ add('C17', ['C17', 'C17S'], 'model_checking',
 add('C18', ['C18', 'C18S'], 'model_checking',
     "Explicit-state search over sequences of cluster-config changes through the real ApplyClusterChanges / assignment computation / client ShardManager.update code: every published namespace must partition [0, 2^32-1] exactly, shard ids unique and never reused, client routing agrees with the published owner at every range boundary; GenerateShards alone for every shard count up to the bound. Schedule stage (h/c18s): one or two clients subscribing to a node's shard assignments (real RegisterForUpdates, the client's Send a scheduling point) racing with one or two pushes of a new map, every schedule up to the deviation bound: a client that stays connected holds the node's current map once nothing is in flight, or it has been cut off.",
     "DESIGN.md §3 C18", "Real coordinator and client routing code; namespaces, servers and depth bounded.", T_SEQX + " + " + T_SCHED, 'seqx+sched')
-add('C19', ['C19'], 'exploration',
-    "Exhaustive enumeration of clusters (1-5 servers, zone/rack label assignments), anti-affinity policies, replication factors, start indexes and existing placements through the real ensemble selector, and of one real rebalance round per status with the emitted swaps applied in order through the real replace logic.",
-    "DESIGN.md §3 C19", "Input universe bounded as stated; multi-label rules outside the oracle.", "exhaustive enumeration of a bounded configuration universe through the real selector and balancer", 'enum')
+add('C19', ['C19', 'C19S'], 'exploration',
+    "Exhaustive enumeration of clusters (1-5 servers, zone/rack label assignments), anti-affinity policies, replication factors, start indexes and existing placements through the real ensemble selector, and of one real rebalance round per status with the emitted swaps applied in order through the real replace logic. Schedule stage on the cluster harness (h/c19s): the real coordinator ShardController swaps a node of a real 3+1-node cluster (follower or leader, reachable or not, with lost coordinator RPC answers as further choices), every schedule at coarse points up to the deviation bound: the stored ensemble is RF distinct servers whenever BecomeLeader is sent and at the end.",
+    "DESIGN.md §3 C19", "Input universe bounded as stated; multi-label rules outside the oracle.", "exhaustive enumeration of a bounded configuration universe through the real selector and balancer + " + T_SCHED + " over real servers and the real coordinator ShardController", 'enum+sched')
 add('C20', ['C20'], 'exploration',
     "Schedule exploration (virtual time) of the real client batcher, write/read batches, write-stream wrapper and multi-shard fan-out against fake executors/streams: every callback completes exactly once with its own result, multi-shard results are the sorted union.",
     "DESIGN.md §3 C20", SCHED_NOTE, T_SCHED, 'sched')
